@@ -94,3 +94,24 @@ check("C06", "enum",
       "NewEngine(...).Execute()==nil must equal refscript.VerifyScript for every case and btcd must never panic; refscript reproduces all of script_tests.json, tx_valid/tx_invalid.json and the taproot-ref corpus before anything is compared. A disagreement is labelled with a named deviation only when the reference with exactly that emulated deviation agrees with btcd on the case (so mutants keep generic keys).",
       "Signature equation via btcec (C11's subject); programs longer than the bounds only via the constructed limit cases; 7 known deviations from Core are listed in known_findings.json (2 consensus-level in obscure/historical paths, 5 relay-policy-level).",
       "DESIGN.md §4 C06")
+
+check("C01", "enum",
+      "exhaustive enumeration of a rule catalogue (every consensus rule exactly at and one past its limit, all other rules satisfied) x 15 chain contexts (tip, reorg, deferred, orphan, headers-first, template check, reopen, unrelated forks, sibling orders) x cache sizes x parameter sets, verdicts compared with an independent contextual block validator and with each other across contexts",
+      "Every candidate's label is reproduced by refblock (independent serialisation, merkle, sigops, subsidy, MTP, finality, BIP30/34/65/66/68/113/141, scripts via refscript) before btcd is consulted; btcd's verdict is read from BestSnapshot/MainChainHasBlock/ChainTips after the deliveries of the context. refblock is bound to fullblocktests.Generate (182 blocks) and the shipped block data.",
+      "One rule violated per candidate; segwit/taproot always active; retargeting/min-difficulty/BIP94 parameter sets in thorough only.",
+      "DESIGN.md §4 C01")
+check("C05", "dfs+fault+crash+vsched",
+      "DFS with state hashing over operation sequences on the real ffldb vs a reference ordered-map model; every single (and second) I/O call failed in turn; every crash image (write-log prefix x dropped unsynced writes x torn last write) reopened; stateless exploration of reader/writer thread schedules under a cooperative scheduler (sync->vsync overlay) + free-running -race pass",
+      "(a) every sequence of <= D bucket/key/cursor/block/prune operations in <= 3 transactions, per file-size regime and flush policy, compared op by op and dump by dump (also after reopen); (a') exhaustive treap op sequences with every earlier version re-checked; (b) fault enumeration with atomicity oracle; (c) crash enumeration with prefix-durability oracle; (d) all schedules with <= 2/3 deviations of one writer (cache commit, flush-path commit, cache commit) against readers: every snapshot is repeatable and equals the state after a prefix of the commits.",
+      "goleveldb atomic/durable per commit; directory operations durable; known findings: cursor direction change, prune deleting files before the commit is safe (3 keys).",
+      "DESIGN.md §4 C05")
+check("C10", "bfs+enum",
+      "explicit-state BFS over histories of ProcessTransaction/MaybeAcceptTransaction/RemoveTransaction/RemoveDoubleSpends/ProcessOrphans/block connect/disconnect (through the real netsync handler) on the real TxPool, invariants after every transition; exhaustive replacement-threshold grid; free-running -race pass for the concurrency clause",
+      "I1 no double spend, I2 spend index == pool, I3 inputs available, I4 orphan bounds, I5 the pool in dependency order passes CheckConnectBlockTemplate, I6 rejected calls and CheckMempoolAcceptance change nothing, I7 replacement rules (evicted set, <=100, absolute fee, strictly higher fee rate than every evicted tx) computed by an independent reference from the pre-state; 8 policy configurations.",
+      "Every TxPool method holds the pool mutex for its whole duration, so lock-granularity interleavings are the sequential orders the BFS covers; data races only via the -race pass (sampling).",
+      "DESIGN.md §4 C10")
+check("C12", "enum",
+      "exhaustive enumeration of pool states (all subsets of an 8-tx universe in both submission orders + constructed limit pools) x 9 tip worlds (plain, halving, after reorg, segwit boundary, MTP ahead) x mining policies x source orders, every template validated by full consensus on a fresh identical chain and recomputed by a naive reference",
+      "NewBlockTemplate succeeds; solved block accepted by ProcessBlock on a fresh chain; topological order; weight/size/sigops within policy and consensus; coinbase == subsidy + fees exactly; witness commitment correct; Fees/SigOpCosts equal naive values; UpdateBlockTime/UpdateExtraNonce keep it valid.",
+      "Known finding: Policy.BlockMaxSize is not enforced by the generator. Rate limiter off (reads the wall clock).",
+      "DESIGN.md §4 C12")
